@@ -1,6 +1,6 @@
 (* C15 - CNF encodings (verified checker) and exact enumeration of minimal correction subsets. *)
 From InfOCF Require Import Core Form Mcs Clause Cnf ThmCnf ThmRS ThmBlock.
-From InfOCF Require Import PyLib TieOpt.
+From InfOCF Require Import PyLib TieOpt TieOptV.
 From InfOCFGen Require Import SrcOpt.
 From Coq Require Import ZArith.
 
@@ -81,6 +81,21 @@ Theorem C15_source_remove_supersets_is_minimal : forall input : list (list BinNu
   (forall y x, In y res -> In x input -> zsubset x y = true -> zsubset y x = true).
 Proof. exact tie_remove_supersets. Qed.
 Print Assumptions C15_source_remove_supersets_is_minimal.
+
+(* get_violated_conditional is GENERATED too.  Whenever the cost handed over is at least the number of violated clauses among
+   the scanned (non-ignored) ones - it is exactly that number where the soft clauses are the scanned ones - the early exit
+   `counter == cost` never truncates: the returned set holds exactly the indices of the non-ignored conditionals having a
+   clause without a literal of the model. *)
+Theorem C15_source_get_violated_exact : forall n (nf:dict BinNums.Z (list (list BinNums.Z))) m cost ig,
+  (Z.of_nat (nvz m (flatz ig nf)) <= cost)%Z -> exists res,
+  py_get_violated_conditional n nf m cost ig = Return res /\
+  forall k, In k res <-> exists cl, In (k, cl) (flatz ig nf) /\ csatz m cl = false.
+Proof. exact tie_get_violated. Qed.
+Print Assumptions C15_source_get_violated_exact.
+Example get_violated_source_example :
+  py_get_violated_conditional 0 [(5, [[1;2];[-3]]); (7, [[3]]); (9, [[-1]])]%Z [1;-2;3]%Z 2%Z [7]%Z = Return [5;9]%Z
+  /\ nvz [1;-2;3]%Z (flatz [7]%Z [(5, [[1;2];[-3]]); (7, [[3]]); (9, [[-1]])]%Z) = 2.
+Proof. vm_compute. split; reflexivity. Qed.
 
 Example faithful_example : check_faithful 3 [0;1] (FAnd (FVar 0) (FVar 1)) [[(true,0)];[(true,1)]] = true
   /\ check_faithful 3 [0;1] (FOr (FVar 0) (FVar 1)) [[(true,0)]] = false
